@@ -4,7 +4,7 @@ from explore import explore_scripts
 
 SPEC = {
     "properties_file": "Properties_C16.v",
-    "facts": ["resolver_filter", "resolver_delay_ms", "T_A", "T_AAAA", "cache_match", "cache_multipliers"],
+    "facts": ["resolver_filter", "resolver_delay_ms", "T_A", "T_AAAA", "cache_match", "cache_multipliers", "resolver_report"],
     "assumptions": ["the supplied cache is modelled by Cache.v (C05/C06/C18); exact scheduling except where the script says LATE"],
 }
 
